@@ -630,6 +630,222 @@ def expect_text(node, want: str, where: str):
 
 
 # ---------------------------------------------------------------------------
+# Span construction and resolution (symbolic execution of Span.__init__ and
+# Span.resolve over abstract end points; everything that builds a Span out of
+# end points is pinned to go through the constructor)
+# ---------------------------------------------------------------------------
+
+def class_attr(T: "Translator", cls: str, name: str):
+    for n in T.classes[cls].body:
+        tg = None
+        if isinstance(n, ast.Assign) and len(n.targets) == 1:
+            tg, val = n.targets[0], n.value
+        elif isinstance(n, ast.AnnAssign) and n.value is not None:
+            tg, val = n.target, n.value
+        if isinstance(tg, ast.Name) and tg.id == name:
+            return ast.unparse(val)
+    return None
+
+
+def span_construction(T: "Translator", tree: ast.Module, add) -> None:
+    # the module-level contextual periods `start` and `end`
+    for nm, frm in (("start", "start_date"), ("end", "end_date")):
+        v = px.find_assign(tree.body, nm)
+        expect_text(v, f"ContextualPeriod('{frm}')", f"module-level `{nm}`")
+    ci = T.method(["ContextualPeriod"], "__init__")[0]
+    expect_text(px.strip_doc(ci)[0], "self._resolve_from = resolve_from", "ContextualPeriod.__init__")
+    expect_text(px.strip_doc(ci)[1], "self._offset = offset", "ContextualPeriod.__init__")
+    # truthiness / needs_resolve of end points: periods are resolved (truthy), contextual periods are not (falsy)
+    expect_text(px.strip_doc(T.method(["Period"], "__bool__")[0])[0], "return not self.needs_resolve", "Period.__bool__")
+    expect_text(px.strip_doc(T.method(["ContextualPeriod"], "__bool__")[0])[0], "return False", "ContextualPeriod.__bool__")
+    expect_text(px.strip_doc(T.method(["Period"], "resolve")[0])[0], "return self", "Period.resolve")
+    if class_attr(T, "ContextualPeriod", "needs_resolve") != "True":
+        raise TranslatorError("ContextualPeriod.needs_resolve is not True")
+    for cls in ["Period", "IntegerPeriod", "DailyPeriod"] + [c for c, _ in REGULAR]:
+        if class_attr(T, cls, "needs_resolve") not in ("False", None) or \
+                (cls == "Period" and class_attr(T, cls, "needs_resolve") != "False"):
+            raise TranslatorError(f"{cls}.needs_resolve is not False")
+        for n in T.classes[cls].body:
+            if cls != "Period" and isinstance(n, ast.FunctionDef) and n.name in ("__bool__", "resolve"):
+                raise TranslatorError(f"{cls}.{n.name} overrides Period.{n.name}")
+
+    # ---- Span.__init__ ---------------------------------------------------------------
+    init = T.method(["Span"], "__init__")[0]
+    a = init.args
+    ps = [x.arg for x in a.posonlyargs + a.args]
+    if ps != ["self", "from_per", "until_per", "step"] or a.vararg or a.kwarg or a.kwonlyargs or \
+            [ast.unparse(d) for d in a.defaults] != ["None", "None", "1"]:
+        raise TranslatorError(f"Span.__init__: signature {ast.unparse(a)}")
+    where = "Span.__init__"
+    OPT = {"from_per", "until_per"}            # option E
+    env: dict[str, str] = {}                   # locals of type E
+    state: dict[str, str] = {}                 # self._start / self._end (E), self._step (Z), self.needs_resolve (bool)
+
+    def e_val(node, env_) -> str:
+        """an expression denoting an end point (type E)"""
+        if isinstance(node, ast.Name):
+            if node.id in env_:
+                return env_[node.id]
+            if node.id == "start":
+                return "ctx_start"
+            if node.id == "end":
+                return "ctx_end"
+            raise TranslatorError(f"{where}: `{node.id}` is not an end point")
+        if isinstance(node, ast.Attribute) and ast.unparse(node) in ("self._start", "self._end"):
+            if node.attr not in state:
+                raise TranslatorError(f"{where}: {ast.unparse(node)} read before assignment")
+            return state[node.attr]
+        if isinstance(node, ast.IfExp):
+            t = node.test
+            # X if X is not None else Y     (X one of the optional arguments)
+            if isinstance(t, ast.Compare) and len(t.ops) == 1 and isinstance(t.ops[0], ast.IsNot) \
+                    and isinstance(t.left, ast.Name) and t.left.id in OPT and ast.unparse(t.comparators[0]) == "None" \
+                    and isinstance(node.body, ast.Name) and node.body.id == t.left.id:
+                return f"(match {t.left.id} with Some x_ => x_ | None => {e_val(node.orelse, env_)} end)"
+        raise TranslatorError(f"{where}: unsupported end point expression `{ast.unparse(node)}`")
+
+    def step_test(node) -> str:
+        if isinstance(node, ast.Compare) and len(node.ops) == 1 and ast.unparse(node.left) == "step" \
+                and ast.unparse(node.comparators[0]) == "0":
+            op = {ast.Gt: ">?", ast.GtE: ">=?", ast.Lt: "<?", ast.LtE: "<=?"}.get(type(node.ops[0]))
+            if op:
+                return f"(step {op} 0)"
+        raise TranslatorError(f"{where}: unsupported test `{ast.unparse(node)}`")
+
+    def branch(stmts, env_) -> dict[str, str]:
+        out = {}
+        for s_ in stmts:
+            if not (isinstance(s_, ast.Assign) and len(s_.targets) == 1 and isinstance(s_.targets[0], ast.Name)):
+                raise TranslatorError(f"{where}: unsupported statement `{ast.unparse(s_)}`")
+            out[s_.targets[0].id] = e_val(s_.value, {**env_, **out})
+        return out
+
+    checked = None
+    for s_ in px.strip_doc(init):
+        if checked is not None:
+            raise TranslatorError(f"{where}: statement after the frequency check: `{ast.unparse(s_)}`")
+        txt = ast.unparse(s_)
+        if isinstance(s_, ast.If) and txt.startswith("if not self.needs_resolve:"):
+            if "needs" not in state or s_.orelse or len(s_.body) != 1:
+                raise TranslatorError(f"{where}: unexpected check `{txt}`")
+            expect_text(s_.body[0], "_check_periods(from_per, until_per)", where)
+            if state.get("_start", "").find("from_per") < 0 or state.get("_end", "").find("until_per") < 0:
+                raise TranslatorError(f"{where}: the checked arguments are not the end points of the span")
+            checked = True
+        elif isinstance(s_, ast.If):
+            c = step_test(s_.test)
+            b1, b2 = branch(s_.body, env), branch(s_.orelse, env)
+            if set(b1) != set(b2):
+                raise TranslatorError(f"{where}: the two branches of `{ast.unparse(s_.test)}` assign different names")
+            for k in b1:
+                env[k] = f"(if {c} then {b1[k]} else {b2[k]})"
+        elif isinstance(s_, ast.Assign) and len(s_.targets) == 1 and ast.unparse(s_.targets[0]) in ("self._start", "self._end"):
+            state[s_.targets[0].attr] = e_val(s_.value, env)
+        elif txt == "self._step = step":
+            state["_step"] = "step"
+        elif txt == "self.needs_resolve = self._start.needs_resolve or self._end.needs_resolve":
+            if "_start" not in state or "_end" not in state:
+                raise TranslatorError(f"{where}: needs_resolve computed before the end points")
+            state["needs"] = "needs st || needs en"
+        else:
+            raise TranslatorError(f"{where}: unsupported statement `{txt}`")
+    for k in ("_start", "_end", "_step", "needs"):
+        if k not in state:
+            raise TranslatorError(f"{where}: {k} is never set")
+    add("(* Span.__init__(from_per=None, until_per=None, step=1) over abstract end points: ctx_start / ctx_end are the module-level")
+    add("   contextual periods `start` / `end`; `needs` is the attribute needs_resolve of an end point *)")
+    add("Section SpanInit.")
+    add("Variable E : Type.")
+    add("Variables ctx_start ctx_end : E.")
+    add("Variable needs : E -> bool.")
+    add(f"Definition gen_span_init_start (from_per until_per : option E) (step : Z) : E := {state['_start']}.")
+    add(f"Definition gen_span_init_end (from_per until_per : option E) (step : Z) : E := {state['_end']}.")
+    add(f"Definition gen_span_init_needs (st en : E) : bool := {state['needs']}.")
+    add("End SpanInit.")
+    add("(* the constructor ends with `if not self.needs_resolve: _check_periods(from_per, until_per)` *)")
+    add(f"Definition gen_span_init_checks_when_resolved : bool := {core.coq_bool(bool(checked))}.")
+
+    # ---- Span.resolve ------------------------------------------------------------------
+    where = "Span.resolve"
+    rs = T.method(["Span"], "resolve")[0]
+    ps = [x.arg for x in rs.args.posonlyargs + rs.args.args]
+    if ps != ["self", "context"] or rs.decorator_list:
+        raise TranslatorError(f"{where}: signature/decorators {ps}")
+    renv: dict[str, tuple[str, str]] = {}
+
+    def r_val(node) -> tuple[str, str]:
+        t = ast.unparse(node)
+        if t == "self._start":
+            return "st", "E"
+        if t == "self._end":
+            return "en", "E"
+        if t == "self._step":
+            return "step", "Z"
+        if isinstance(node, ast.Name) and node.id in renv:
+            return renv[node.id]
+        if isinstance(node, ast.IfExp):
+            c, ct = r_val(node.test)
+            x, xt = r_val(node.body)
+            y, yt = r_val(node.orelse)
+            if ct != "E" or xt != "E" or yt != "E":
+                raise TranslatorError(f"{where}: unsupported conditional `{t}`")
+            return f"(if truthy {c} then {x} else {y})", "E"
+        if isinstance(node, ast.Call) and isinstance(node.func, ast.Attribute) and node.func.attr == "resolve" \
+                and [ast.unparse(x) for x in node.args] == ["context"] and not node.keywords:
+            x, xt = r_val(node.func.value)
+            if xt != "E":
+                raise TranslatorError(f"{where}: resolve of a non end point `{t}`")
+            return f"(resolve_ep {x})", "E"
+        raise TranslatorError(f"{where}: unsupported expression `{t}`")
+
+    body = px.strip_doc(rs)
+    for s_ in body[:-1]:
+        if not (isinstance(s_, ast.Assign) and len(s_.targets) == 1 and isinstance(s_.targets[0], ast.Name)):
+            raise TranslatorError(f"{where}: unsupported statement `{ast.unparse(s_)}` (only local assignments are modelled; "
+                                  "the resolved span must be built by the constructor)")
+        renv[s_.targets[0].id] = r_val(s_.value)
+    ret = body[-1] if body else None
+    if not (isinstance(ret, ast.Return) and isinstance(ret.value, ast.Call) and ast.unparse(ret.value.func) in ("type(self)", "Span")
+            and len(ret.value.args) == 3 and not ret.value.keywords):
+        raise TranslatorError(f"{where}: the result is not built by the Span constructor from three positional arguments: "
+                              f"`{ast.unparse(ret) if ret is not None else ''}`")
+    (x, xt), (y, yt), (c, ct) = (r_val(v) for v in ret.value.args)
+    if (xt, yt, ct) != ("E", "E", "Z"):
+        raise TranslatorError(f"{where}: constructor arguments of the wrong kinds `{ast.unparse(ret)}`")
+    add("(* Span.resolve(context): `truthy` is bool(end point), `resolve_ep` is <end point>.resolve(context), `construct` is the")
+    add("   Span constructor (the ONLY way the resolved span is built) *)")
+    add("Section SpanResolve.")
+    add("Variables E S : Type.")
+    add("Variable truthy : E -> bool.")
+    add("Variable resolve_ep : E -> E.")
+    add("Variable construct : option E -> option E -> Z -> S.")
+    add(f"Definition gen_span_resolve (st en : E) (step : Z) : S := construct (Some {x}) (Some {y}) {c}.")
+    add("End SpanResolve.")
+
+    # ---- every other place that builds a Span out of end points goes through the constructor (pinned) ----
+    for nm, want in (("__rshift__", "return Span(self, end, 1)"), ("__rrshift__", "return Span(start, self, 1)"),
+                     ("__lshift__", "return Span(start, self, -1)"), ("__rlshift__", "return Span(self, end, -1)")):
+        m = T.method(["_SpannableMixin"], nm)[0]
+        expect_text(px.strip_doc(m)[-1], want, f"_SpannableMixin.{nm}")
+    for nm in ("__rshift__", "__lshift__"):
+        m = T.method(["Span"], nm)[0]
+        expect_text(px.strip_doc(m)[-1], "return type(self)(self._start, self._end, step)", f"Span.{nm}")
+    m = T.method(["Span"], "reversed")[0]
+    if [ast.unparse(s_) for s_ in px.strip_doc(m)] != ["new = self.copy()", "new.reverse()", "return new"]:
+        raise TranslatorError("Span.reversed: unexpected body")
+    expect_text(px.strip_doc(T.method(["Span"], "__bool__")[0])[0], "return not self.needs_resolve", "Span.__bool__")
+    expect_text(px.strip_doc(T.method(["Span"], "__eq__")[0])[0],
+                "return self._start == other._start and self._end == other._end and (self._step == other._step)", "Span.__eq__")
+    # nothing but __init__ and the four pinned in-place mutators assigns the end points of a Span
+    allowed = {"__init__", "reverse", "shift", "shift_start", "shift_end"}
+    for n in T.classes["Span"].body:
+        if isinstance(n, ast.FunctionDef) and n.name not in allowed:
+            for sub in ast.walk(n):
+                if isinstance(sub, ast.Attribute) and isinstance(sub.ctx, ast.Store) and sub.attr in ("_start", "_end", "_step", "needs_resolve"):
+                    raise TranslatorError(f"Span.{n.name} assigns .{sub.attr} outside the constructor / the modelled mutators")
+
+
+# ---------------------------------------------------------------------------
 # generation
 # ---------------------------------------------------------------------------
 
@@ -1005,6 +1221,8 @@ def generate() -> str:
     expect_text(px.strip_doc(m)[0], "return type(self)(self._start + offset, self._end + offset, self._step)", "Span.__add__")
     m = T.method(["Span"], "__sub__")[0]
     expect_text(px.strip_doc(m)[0].orelse[0], "return type(self)(self._start - offset, self._end - offset, self._step)", "Span.__sub__")
+    add("")
+    span_construction(T, tree, add)
     add("")
 
     # ---- C11: SDMX patterns -------------------------------------------------------------
